@@ -685,6 +685,32 @@ def s_trim(F, res, label=""):
             res.add([ok("S-TRIM", key, where(f), "each removal is dominated, inside its loop, by a fresh evaluation of the excess (available - target, contains_total)")])
 
 
+def s_whole(F, res, label=""):
+    """A strategy ranks or walks *every* UTxO of the search space it was given: nowhere between the search space and the walk are
+    the candidates collected into a map / set under a key computed from them (a distance, an amount) - candidates that agree on
+    the key would collapse into one, and a selection that needs two equal UTxOs comes back empty."""
+    from ..common import keyed_collapses
+    n = 0
+    for p in sorted(F.fns):
+        m = re.search(r"<tx3_resolver::inputs::select::(\w+)::(\w+) as tx3_resolver::inputs::select::CoinSelection>::(pick_single|pick_many)$", p)
+        if not m:
+            continue
+        f = F.fns[p]
+        fi = mir.inline_calls(F, f, want=c04._HELPERS_ALL, depth=3)
+        n += 1
+        key = "%s|%s walks the whole search space%s" % (m.group(2), m.group(3), label)
+        cols = []
+        for g in with_closures(F, fi):
+            cols += [(g, l_, d_) for l_, d_ in keyed_collapses(F, g)]
+        if cols:
+            g, l_, d_ = cols[0]
+            res.add([finding("S-WHOLE", key, where(g, l_), "%s::%s collects its candidates into a keyed container (%s): of several UTxOs with the same key only one survives, so a selection that needs both comes back empty although the search space covers the target" % (m.group(2), m.group(3), d_))])
+        else:
+            res.add([ok("S-WHOLE", key, where(f), "no collection of the candidates under a computed key (helpers and closures included)")])
+    res.count("strategy methods read for keyed collapses", n)
+    res.floor("strategy methods read for keyed collapses", n, 2)
+
+
 def s_lattice(F, res):
     """S-LATTICE: the per-constraint subsets are combined by a union and an intersection over {NotSet = no constraint stated,
     All = every UTxO, Specific(set)}.  Both are finite case tables over the pairs of variants.  For the function whose
@@ -832,6 +858,8 @@ def run(ctx):
     s_faillate(F, res)
     s_predicate(F, res)
     s_trim(F, res)
+    res.rule("S-WHOLE", "a strategy ranks every UTxO of its search space: candidates are not collapsed under a computed key")
+    s_whole(F, res)
     c04.s_fabricate(F, res)
     # the covering predicates themselves, decided over order types (shared with C15)
     from . import c15
@@ -842,6 +870,7 @@ def run(ctx):
         r2 = Result("C03")
         s_predicate(F2, r2, label=" [naive_selector]")
         s_trim(F2, r2, label=" [naive_selector]")
+        s_whole(F2, r2, label=" [naive_selector]")
         f_candidates(F2, r2)
         have = {o.key for o in res.obs}
         res.add([o for o in r2.obs if o.key not in have])
